@@ -13,6 +13,7 @@ LICENSE file or <http://www.boost.org/LICENSE_1_0.txt>
 
 #include <gdstk/array.hpp>
 #include <gdstk/repetition.hpp>
+#include <gdstk/utils.hpp>
 #include <gdstk/vec.hpp>
 
 namespace gdstk {
@@ -244,28 +245,14 @@ void Repetition::get_extrema(Array<Vec2>& result) const {
         } break;
         case RepetitionType::Explicit: {
             if (offsets.count == 0) return;
-            Vec2 vxmin = {0, 0};
-            Vec2 vxmax = {0, 0};
-            Vec2 vymin = {0, 0};
-            Vec2 vymax = {0, 0};
-            Vec2* v = offsets.items;
-            for (uint64_t i = offsets.count; i > 0; i--, v++) {
-                if (v->x < vxmin.x) {
-                    vxmin = *v;
-                } else if (v->x > vxmax.x) {
-                    vxmax = *v;
-                }
-                if (v->y < vymin.y) {
-                    vymin = *v;
-                } else if (v->y > vymax.y) {
-                    vymax = *v;
-                }
-            }
-            result.ensure_slots(4);
-            result.append_unsafe(vxmin);
-            result.append_unsafe(vxmax);
-            result.append_unsafe(vymin);
-            result.append_unsafe(vymax);
+            // The extrema are used for bounding boxes and for convex hulls that can be rotated
+            // afterwards: keep every offset on the hull, not only the axis-aligned extremes
+            Array<Vec2> all = {};
+            all.ensure_slots(1 + offsets.count);
+            all.append_unsafe(Vec2{0, 0});
+            all.extend(offsets);
+            convex_hull(all, result);
+            all.clear();
         } break;
         case RepetitionType::None:
             return;
